@@ -94,7 +94,7 @@ def run(ctx):
     if K.build_hx(ctx) and K.build_drv(ctx):
         args = S.drv_args(facts)
         try:
-            c = K.correspondence(ctx, "C29", args, timeout=600)
+            c = K.correspondence(ctx, "C29", args, timeout=3000)
         except Exception as e:
             c = K.Corr()
             c.err = "harness did not finish: %r" % (e,)
